@@ -228,6 +228,19 @@ def worker(case):
                     viol = ("c09:tool:read_header-f:marks", "per-chunk marks %s, expected %s" % (marks, want_marks))
                 elif open(os.path.join(cdir, "f.zck"), "rb").read() != disk:
                     viol = ("c09:tool:read_header-f:modified-file", "zck_read_header -f changed the file")
+                else:
+                    # the verdict must not depend on whether the chunk list is printed as well
+                    for extra in (["-f"], ["-q", "-f"]):
+                        t2 = core.run_proc([case["tools"]["zck_read_header"]] + extra + ["f.zck"], cdir, stdout_path=os.path.join(cdir, "rh2.out"))
+                        stats["tool_runs"] = stats.get("tool_runs", 0) + 1
+                        cs = core.crash_signatures(t2, where="tool:zck_read_header")
+                        if cs:
+                            viol = (cs[0], "zck_read_header %s crashed: %s" % (extra, cs))
+                        elif (t2.rc == 0) != want_ok:
+                            viol = ("c09:tool:read_header-f-without-c:verdict:%s" % ("success-on-damage" if t2.rc == 0 else "failure-on-intact"),
+                                    "zck_read_header %s exit %s (with -c: %s) but chunks %s data_ok=%s detached=%s" % (" ".join(extra), t2.rc, tr.rc, exp, dok, p.detached))
+                        if viol:
+                            break
             if not viol and not p.detached:
                 ur = core.run_proc([case["tools"]["unzck"], "-c", "f.zck"], cdir, stdout_path=os.path.join(cdir, "un.out"))
                 stats["tool_runs"] = stats.get("tool_runs", 0) + 1
@@ -303,7 +316,7 @@ class C09(core.Check):
     def cases(self, ctx):
         out = self._cases(ctx)
         for i, c in enumerate(out):
-            if i % (3 if self.quick else 2) == 0:
+            if i % (3 if self.quick else 2) == 0 or c.get("always_tools"):
                 c["tools"] = ctx["tools"]
         return out
 
@@ -350,6 +363,14 @@ class C09(core.Check):
             if not p.has_uncomp:
                 bad = basefiles.rebuild(p, full, data_digest=bytes([p.data_digest[0] ^ 1]) + p.data_digest[1:])
                 out.append({"base": b["name"], "state": {"chunks": ["wrong-data-digest"]}, "disk": core.b64(bad), "words": WORDS1 + [["vd", "fv"], ["fv", "vd"]], "zh": ctx["zh"]})
+                # an index digest that does not match intact stored bytes (data checksum still right): only the per-chunk comparison sees it
+                ch = [(c["digest"], c["udigest"], c["comp_len"], c["len"]) for c in p.chunks]
+                k = r.randrange(1, len(ch)) if len(ch) > 1 else 0
+                if ch[k][2]:
+                    ch[k] = (bytes([ch[k][0][0] ^ 4]) + ch[k][0][1:],) + ch[k][1:]
+                    bad = basefiles.rebuild(p, full, chunks=ch)
+                    out.append({"base": b["name"], "state": {"chunks": ["wrong-chunk-digest-%d" % k]}, "disk": core.b64(bad), "words": WORDS1 + [["vd", "fv"], ["vd", "vc"]], "zh": ctx["zh"],
+                                "always_tools": True})
             # detached header: header + dictionary, with intact / corrupt / absent dictionary, followed by foreign bytes
             dl = p.chunks[0]["comp_len"]
             det = zckref.MAGIC_HDR + full[5:p.header_len + dl]
@@ -358,7 +379,8 @@ class C09(core.Check):
                              ("detached-dict-absent", det[:p.header_len + dl // 2])):
                 if dl == 0 and name in ("detached-dict-corrupt", "detached-dict-absent"):
                     continue
-                out.append({"base": b["name"], "state": {"chunks": [name]}, "disk": core.b64(dd), "words": [["fv"], ["vc"], ["fv", "fv"]], "zh": ctx["zh"]})
+                out.append({"base": b["name"], "state": {"chunks": [name]}, "disk": core.b64(dd), "words": [["fv"], ["vc"], ["fv", "fv"]], "zh": ctx["zh"],
+                            "always_tools": bi % 3 == 0})
             # marked valid first (scan or full read), damaged afterwards, scanned again on the same context
             for _ in range(3 if self.quick else 12):
                 cs_ = [c for c in p.chunks if c["comp_len"]]
